@@ -344,9 +344,10 @@ def h_no_color_history(steps):
 DTW = {'bits1100': 1100, 'hex1200': 1200}
 
 
-def h_array_repr(dtype, values):
+def h_array_repr(dtype, values, lsb0=False):
     def h(K):
         import bitstring
+        bitstring.options.lsb0 = lsb0        # (restored by the engine after the path)
         vals = [K.choice(f'v{j}', values) for j in range(2)]
         tr = K.choice('trailing', ['', '0b1', '0b011', '0b1' + '01' * 501 + '1'] if DTW.get(dtype, 8) > 1004 else ['', '0b1', '0b011'])
         a = bitstring.Array(dtype, vals, trailing_bits=tr if tr else None)
@@ -411,4 +412,6 @@ def conditions(tier):
     for dtype, values in [('uint8', [0, 1, 255]), ('int5', [-16, 0, 15]), ('float32', [0.0, -1.5, 3.25]), ('hex4', ['a', '0', 'f']), ('bool', [True, False]), ('uintle16', [1, 256]),
                           ('bfloat', [1.0, -2.0]), ('e4m3mxfp', [0.5, 448.0]), ('bits1100', ['0b' + '10' * 550, '0b' + '0' * 1100])]:
         add(f'C19.array-repr[{dtype}]', h_array_repr(dtype, values), 'two items from the listed values x trailing bits in {none, 1, 3 bits}')
+        if dtype in ('uint8', 'int5', 'hex4', 'float32') or not q:
+            add(f'C19.array-repr[{dtype},lsb0]', h_array_repr(dtype, values, True), 'two items from the listed values x trailing bits in {none, 1, 3 bits}; options.lsb0 set')
     return conds
